@@ -75,6 +75,9 @@ package cache
 //@   ensures [other-leaves-kept] forall r ref :: r != L0(t, n) ==> LeafVal(r) == old(LeafVal(r))
 //@   ensures [other-trees-kept] forall u ref :: u != t.t ==> tstore[u] == old(tstore[u]) && treal[u] == old(treal[u])
 //@   ensures [stored-wf] StoredWf(t)
+// The collector's own boolean metadata leaves only ever hold booleans (the periodic refresh relies on it).
+//@   ensures [meta-connected-and-sync-are-boolean C12 C15] res1 == nil && len(JP(n)) >= 2 && first(JP(n)) == "meta" && (JP(n)[1] == "connected" || JP(n)[1] == "sync")
+//@     ==> n.Update[0].Val != nil && isa(n.Update[0].Val.Value.(*pb.TypedValue_BoolVal))
 //@   ensures [never-removes C14] forall k PKey :: old(tstore[t.t][k]) != nil ==> tstore[t.t][k] == old(tstore[t.t][k])
 // C03: the change feed. A leaf is returned (to be announced) iff the tree changed and the change is not suppressed;
 // suppression happens only with event-driven emulation on, for a non-atomic update whose value equals the stored one.
